@@ -1165,7 +1165,7 @@ def _judge(tr, cfg, req, resp, cut_by_fault, relaxed, violate, probe) -> int:
         file_cands = [p for p in cands if _kind(p) == "file"]
         _prologue = b"<html>\n<head>\n<title>Index of"
         looks_listing = ctype.startswith("text/html") and (
-            body.startswith(_prologue) or (not complete and 0 < len(body) < len(_prologue) and dir_cands
+            body.startswith(_prologue) or (not complete and 0 <= len(body) < len(_prologue) and dir_cands
                                            and _prologue.startswith(bytes(body))))
         if looks_listing or (method == "HEAD" and status == 200 and dir_cands and not file_cands):
             interesting = 1
